@@ -44,6 +44,10 @@ def gen_cases(tier, seed):
             cases.append({'carrier': 'process', 'n': n, 'size': 50, 'ending': ending, 'pause': 0, 'parent_level': 'DEBUG', 'levels': True, 'threads': 1, 'named_logger_level': 'ERROR'})
             cases.append({'carrier': 'process', 'n': n, 'size': 50, 'ending': ending, 'pause': 0, 'parent_level': 'DEBUG', 'levels': True, 'threads': 1, 'handler_level': 'WARNING'})
             cases.append({'carrier': 'process', 'n': n, 'size': 50, 'ending': ending, 'pause': 0, 'parent_level': 'ERROR', 'levels': True, 'threads': 1, 'named_logger_level': 'INFO'})
+    # records that carry application context which cannot be pickled (extra={'conn': <lock>}), or exception info
+    for n in (8, 400):
+        for ending in ('return', 'raise'):
+            cases.append({'carrier': 'process', 'n': n, 'size': 50, 'ending': ending, 'pause': 0, 'parent_level': 'DEBUG', 'levels': False, 'threads': 1, 'rich': True})
     extra = []
     for n in (5, 300, 3000):
         for w in (1, 2):
@@ -57,7 +61,7 @@ def gen_cases(tier, seed):
                               'handler_delay': 0.003, 'parent_level': 'DEBUG'})
     if tier == 'quick':
         rng.shuffle(cases)
-        lv = [c for c in cases if c.get('named_logger_level') or c.get('handler_level')]
+        lv = [c for c in cases if c.get('named_logger_level') or c.get('handler_level') or c.get('rich')]
         cases = [c for c in cases if c not in lv]
         big = [c for c in cases if c['n'] >= 2000][:14]
         small = [c for c in cases if c['n'] < 2000][:46]
@@ -121,7 +125,7 @@ def run_case(case):
     try:
         if case['carrier'] == 'process':
             spec = {'n': case['n'], 'size': case['size'], 'ending': case['ending'], 'levels': case['levels'], 'threads': case['threads'],
-                    'pause_before_end': case['pause']}
+                    'pause_before_end': case['pause'], 'rich': case.get('rich', False)}
             p = mm.Process(target=targets.c20_target, args=(spec,))
             p.start()
 
